@@ -207,9 +207,15 @@ def setUnits (i : Info) (f : Frame) (m : List (Str × Str)) : Info × Option Err
 def setAllUnits (i : Info) (f : Frame) (us : List Str) : Info × Option Err :=
   setUnits i f (f.names.zip us)
 
+/-- `df[name]` for a label that occurs more than once is a pandas selection of several columns: it goes
+    through `__finalize__`, whose validation of the *selected* frame raises InvalidNamingError before the
+    table's own info is consulted -/
+def dupLabel (f : Frame) (name : Str) : Bool := (f.names.filter (fun n => n = name)).length > 1
+
 /-- `Table[name].unit = u`: `df[name]`, consultation, `columns[name]`, assignment -/
 def setColUnit (i : Info) (f : Frame) (name u : Str) : Info × Option Err :=
   if !f.names.contains name then (i, some .keyError)
+  else if dupLabel f name then (i, some .invalidNaming)
   else setUnits i f [(name, u)]
 
 /-- `{col: ColumnMetadata(unit) for col, unit in zip(df.columns, units)}` -/
@@ -297,6 +303,7 @@ def tableUnits (i : Info) (f : Frame) : Info × Except Err (List Str) :=
 /-- `Table[name].unit`: `df[name]` first, then the consultation, then `columns[name]` -/
 def tableGetUnit (i : Info) (f : Frame) (name : Str) : Info × Except Err Str :=
   if !f.names.contains name then (i, .error .keyError)
+  else if dupLabel f name then (i, .error .invalidNaming)
   else match consult i f with
     | (i1, some e) => (i1, .error e)
     | (i1, none) => match get i1.reg name with
